@@ -565,6 +565,21 @@ def pred_move(name, kind, idx, amount) -> tuple[str, str] | None:
         return (f"{kind}:rest-moved", f"{where}: atoms outside the fragment move by "
                 f"{np.abs((p1 - p0).reshape(-1, 3)[fixed]).max():.3g}")
     if kind == "bond":
+        # the chosen bond itself: its second atom is displaced along the bond by `amount` bond lengths, so it becomes
+        # (1 + amount) times as long — through the single-move routine and through the plural wrapper alike
+        def blen1(p):
+            return float(np.linalg.norm(p[3 * idx[1]:3 * idx[1] + 3] - p[3 * idx[0]:3 * idx[0] + 3]))
+        c2 = fresh(name)
+        c2.change_bond_lengths([list(idx)], [amount], c2.reference_bonds)
+        p2 = np.asarray(c2.position, dtype=float).reshape(-1)
+        for how, pp in (("change_bond_length", p1), ("change_bond_lengths", p2)):
+            if abs(blen1(pp) - abs(1.0 + amount) * blen1(p0)) > 1e-9 * max(1.0, blen1(p0)):
+                return ("bond:length-not-changed-as-asked", f"{where} through {how}: the bond is {blen1(pp):.6f} long afterwards, "
+                        f"(1 + {amount:.6g}) times its length {blen1(p0):.6f} is {abs(1.0 + amount) * blen1(p0):.6f}")
+        if p2.shape != p1.shape or float(np.max(np.abs(p2 - p1))) > 1e-9:
+            return ("bond:wrapper-disagrees", f"{where}: change_bond_lengths and change_bond_length (with the fragment "
+                    f"get_movable_atoms selects for a length change) give different positions "
+                    f"(max difference {float(np.max(np.abs(p2 - p1))):.3g})")
         # a length change alters the chosen bond; when both its atoms sit in a ring the displaced atom drags its other
         # ring bonds along; every other bond of the reference bonding (the substituents that ride along) keeps its length
         ring = {x for cyc in nx.cycle_basis(G) for x in cyc}
